@@ -1,4 +1,5 @@
 import Mercure.Props.C03Claims
+import Mercure.Props.C03Token
 import Mercure.Model.Subscribe
 import Mercure.Lemmas.Auth
 /-
@@ -152,3 +153,8 @@ end Mercure.C03
 #print axioms Mercure.C03Claims.folded_keys
 #print axioms Mercure.C03Claims.null_claims
 #print axioms Mercure.C03Claims.dates
+-- from the compact serialisation to the claims (Model/Token; statements in Props/C03Token)
+#print axioms Mercure.C03Token.b64_roundtrip
+#print axioms Mercure.C03Token.split_join
+#print axioms Mercure.C03Token.derive_mint
+#print axioms Mercure.C03Token.malformed_examples
